@@ -11,7 +11,7 @@
    independent specification (Spec/Choice.v).  An environment [e] is ANY function
    from names to optional byte strings: nothing is bounded or sampled. *)
 From Coq Require Import NArith List Bool String.
-From AV Require Import Spec.Choice Generated.Choice Model.Choice Proofs.Choice.
+From AV Require Import Spec.Choice Generated.Choice Model.Base Model.Choice Proofs.Choice Generated.ChoiceFn Proofs.ChoiceGen.
 Import ListNotations.
 Local Open Scope N_scope.
 
@@ -86,3 +86,57 @@ Proof. exact atomic_roundtrip. Qed.
 Theorem c09_const_false_streams : forall ty fd_tty global e,
   In ty ch_streams_const_false -> ch_choice_on ty fd_tty global e = Some (choice_spec global e false).
 Proof. exact const_false_streams_choice. Qed.
+
+(* ---- the tie by translation --------------------------------------------------------- *)
+
+(* Generated/ChoiceFn.v is written on every run by tools/gen_fn_choice.py (tools/rs2v) from the Rust
+   sources of anstyle_query::{clicolor, clicolor_force, no_color, term_supports_color,
+   term_supports_ansi_color, truecolor, is_ci, non_empty} (non-Windows configuration),
+   colorchoice::{AtomicChoice::{from_choice, to_choice, new, get, set}, ColorChoice::{global,
+   write_global}}, colorchoice_clap::Color::{as_choice, write_global}, anstream::auto::choice and AutoStream::choice.
+   [e] is std::env::var_os, [user] the value of `static USER` (an AtomicUsize = a register),
+   [raw] the answer of raw.is_terminal(); None = a Rust panic (the `expect` of AtomicChoice::get). *)
+
+(* the translated probes compute what the hand models -- the subjects of c09_probe_* -- compute *)
+Theorem c09_translated_probes_are_model : forall e,
+  g_clicolor e = Some (ch_clicolor e) /\ g_clicolor_force e = ch_clicolor_force e /\ g_no_color e = ch_no_color e /\
+  g_term_supports_color e = Some (ch_term_supports_color e) /\
+  g_term_supports_ansi_color e = Some (ch_term_supports_ansi_color e) /\
+  g_truecolor e = ch_truecolor e /\ g_is_ci e = ch_is_ci e.
+Proof. exact translated_probes_are_model. Qed.
+
+(* the translated if/else chain of anstream::auto::choice is [choice_model] of the global the static holds *)
+Theorem c09_translated_choice_is_model : forall e user raw,
+  g_choice e user raw =
+  match ch_to_choice user with Some g => Some (choice_model g e raw) | None => None end.
+Proof. exact translated_choice_is_model. Qed.
+
+Theorem c09_translated_autostream_choice_is_model : forall e user raw,
+  g_autostream_choice e user raw =
+  match ch_to_choice user with Some g => Some (choice_model g e raw) | None => None end.
+Proof. exact translated_autostream_choice_is_model. Qed.
+
+(* the translated arms of from_choice / to_choice / as_choice are the generated tables *)
+Theorem c09_translated_from_choice : forall c, g_from_choice c = Some (ch_from_choice c).
+Proof. exact g_from_choice_eq. Qed.
+
+Theorem c09_translated_to_choice : forall n, g_to_choice n = Some (ch_to_choice n).
+Proof. exact g_to_choice_eq. Qed.
+
+Theorem c09_translated_as_choice : forall f, g_as_choice f = Some (ch_as_choice f).
+Proof. exact g_as_choice_eq. Qed.
+
+(* `c.write_global(); AutoStream::choice(&raw)`, translated code only: whatever the static held before, the
+   decision is the decision list of the property, for every environment; it never panics *)
+Theorem c09_translated_write_then_choice_is_spec : forall c e user raw,
+  (u <- g_write_global c user ;; g_autostream_choice e u raw) = Some (choice_spec c e raw).
+Proof. exact translated_write_then_choice_is_spec. Qed.
+
+(* `Color { color: f }.write_global(); ColorChoice::global()`, translated code only *)
+Theorem c09_translated_flag_then_global : forall f user,
+  (u <- g_color_write_global f user ;; g_global u) = Some (flag_choice_spec f).
+Proof. exact translated_flag_then_global_is_spec. Qed.
+
+(* before any write_global: `static USER = AtomicChoice::new()` read back by ColorChoice::global() *)
+Theorem c09_translated_initial_global : (u <- g_user_initial ;; g_global u) = Some ch_global_initial.
+Proof. exact translated_initial_global. Qed.
